@@ -51,6 +51,23 @@ K0, K1, K2, K3 = [_mk(i) for i in range(N)]
 CLASSES = [K0, K1, K2, K3]
 
 
+class WBase:
+    """element class of the list sink that has none of the linked parameters"""
+
+    def __init__(self, name: str = "w"):
+        LOG.append((f"{type(self).__name__}:{name}", {}))
+        self.name = name
+
+
+class WLinked(WBase):
+    def __init__(self, name: str = "lw", p0: "Any" = "unset", p1: "Any" = "unset", p2: "Any" = "unset", p3: "Any" = "unset"):
+        self.name = name
+        LOG.append((f"WLinked:{name}", {"p0": p0, "p1": p1, "p2": p2, "p3": p3}))
+
+
+from typing import Any  # noqa: E402  (the annotations above are resolved lazily)
+
+
 def compute(v):
     return ("computed", v)
 
@@ -160,6 +177,11 @@ def run_e2e(ctx, case):
             p.add_argument(f"--{NAMES[i]}", type=CLASSES[i], default=lazy_instance(CLASSES[i]))
         else:
             p.add_class_arguments(CLASSES[i], NAMES[i])
+    sink = case.get("list_sink")  # {"sources": [node...], "items": ["WLinked" | "WBase", ...]}: a List[WBase] argument fed by instantiation links
+    if sink:
+        from typing import List
+
+        p.add_argument("--workers", type=List[WBase], default=[])
     cyc = kahn_cyclic(list(range(n)), edges)
     err = None
     late = case.get("late", 0)  # this many links are added only after the parser has been used once (parse + instantiate)
@@ -182,6 +204,14 @@ def run_e2e(ctx, case):
         except Exception as ex:  # noqa
             ctx.finding(f"C16/e2e/link_arguments-raises:{type(ex).__name__}", {"error": fmt_exc(ex), "link": [src, tgt]})
             return
+    if sink and err is None:
+        for a in sink["sources"]:
+            try:
+                p.link_arguments(NAMES[a], f"workers.init_args.p{a}", apply_on="instantiate")
+            except Exception as ex:  # noqa
+                ctx.finding(f"C16/e2e/link_arguments-raises:{type(ex).__name__}", {"error": fmt_exc(ex), "link": [NAMES[a], f"workers.init_args.p{a}"]})
+                return
+        ctx.cls("e2e:list-sink:" + ("mixed" if len(set(sink["items"])) > 1 else "homogeneous" if sink["items"] else "empty"))
     ctx.cls("e2e:cyclic" if cyc else "e2e:acyclic")
     if cyc != (err is not None):
         ctx.finding(f"C16/e2e/{'cyclic-link-set-accepted' if cyc else 'acyclic-link-set-rejected'}", {"edges": edges, "decl": decl, "error": str(err)})
@@ -190,11 +220,35 @@ def run_e2e(ctx, case):
         return
     del LOG[:]
     try:
-        cfg = p.parse_args([])
+        argv = []
+        if sink:
+            argv = ["--workers=" + json.dumps([{"class_path": f"{__name__}.{c}", "init_args": {"name": f"i{j}"}} for j, c in enumerate(sink["items"])])]
+        cfg = p.parse_args(argv)
         init = p.instantiate_classes(cfg)
     except Exception as ex:  # noqa
-        ctx.finding(f"C16/e2e/instantiation-raises:{type(ex).__name__}", {"error": fmt_exc(ex), "edges": edges, "decl": decl, "as_arg": sorted(as_arg)})
+        ctx.finding(f"C16/e2e/instantiation-raises:{type(ex).__name__}", {"error": fmt_exc(ex), "edges": edges, "decl": decl, "as_arg": sorted(as_arg), "list_sink": sink})
         return
+    if sink:
+        # every element built exactly once, after every source that feeds the list; elements that have the parameter hold the source object
+        wlog = [(i, x) for i, x in enumerate(LOG) if x[0].startswith("W")]
+        if [x[0] for _i, x in wlog] != [f"{c}:i{j}" for j, c in enumerate(sink["items"])]:
+            ctx.finding("C16/e2e/list-sink/elements-not-constructed-exactly-once-in-order", {"constructed": [x[0] for x in LOG], "list_sink": sink})
+            return
+        kpos = {x[0]: i for i, x in enumerate(LOG) if x[0].startswith("K")}
+        for i, (nm, kw) in wlog:
+            for a in sink["sources"]:
+                if kpos.get(f"K{a}", 10 ** 6) > i:
+                    ctx.finding("C16/e2e/list-sink/source-constructed-after-list-element", {"constructed": [x[0] for x in LOG], "source": a})
+                    return
+                if nm.startswith("WLinked") and kw[f"p{a}"] is not init[NAMES[a]]:
+                    ctx.finding("C16/e2e/list-sink/element-did-not-receive-the-source-object", {"element": nm, "param": f"p{a}", "value": short(kw[f"p{a}"], 100), "list_sink": sink})
+                    return
+            if nm.startswith("WLinked"):
+                for a in range(n):
+                    if a not in sink["sources"] and kw[f"p{a}"] != "unset":
+                        ctx.finding("C16/e2e/list-sink/unlinked-parameter-changed", {"element": nm, "param": f"p{a}"})
+                        return
+        LOG[:] = [x for x in LOG if x[0].startswith("K")]
     names = [x for x, _ in LOG]
     want = sorted(f"K{i}" for i in range(n))
     if sorted(names) != want:
@@ -240,6 +294,9 @@ def e2e_shard(ctx, part, of, n_cyclic):
             as_arg = [i for i in range(N) if rnd.random() < 0.3]
             case = {"kind": "e2e", "n": N, "edges": [list(e) for e in eorder], "decl": list(decl), "kinds": kinds, "as_arg": as_arg,
                     "late": rnd.choice([0, 0, 0, 1, 2]) if len(eorder) >= 2 else 0}
+            if rnd.random() < 0.3:
+                case["list_sink"] = {"sources": sorted(rnd.sample(range(N), rnd.randint(1, 2))),
+                                     "items": rnd.choice([["WLinked"], ["WLinked", "WLinked"], ["WLinked", "WBase"], ["WBase", "WLinked"], ["WBase", "WLinked", "WLinked"], ["WBase"], []])}
             ctx.begin(case)
             run_e2e(ctx, case)
             if len(edges) >= 2:
